@@ -7,9 +7,8 @@
 (*   malformed-accepted : the byte string does not decode completely       *)
 (*        (truncated operand, unknown or zero opcode) but no error was     *)
 (*        reported                                                         *)
-(*   raised-on-valid : the machine accepts the byte string, every          *)
-(*        instruction in it is one the serialiser can emit, and the        *)
-(*        deserialiser raised                                              *)
+(*   raised-on-valid : the byte string was produced by the serialiser, the *)
+(*        machine accepts it, and the deserialiser raised                  *)
 (*   bytes : the calls made on the fresh serializer re-emit a different    *)
 (*        byte string (= not the same sequence of machine steps)           *)
 (*   state : final stack top / length / memory / claims of the fresh       *)
@@ -67,7 +66,10 @@ CheckCase(i) ==
   IN IF ~sc.ok THEN (IF c.out = "ok" THEN "malformed-accepted" ELSE "")
      ELSE IF ~r.ok THEN ""                                   \* well-formed bytes the machine rejects: any outcome
      ELSE IF ~sc.emit THEN ""                                \* instructions the serialiser never emits
-     ELSE IF c.out # "ok" THEN "raised-on-valid"
+     \* a raise is only wrong on a stream the serialiser really produced: a mutated stream can be valid for the machine and
+     \* still outside the serialiser's image for a reason that depends on the state (e.g. Instantiate with no ids while other
+     \* entries lie below the proof, which the tracker refuses)
+     ELSE IF c.out # "ok" THEN (IF c.produced THEN "raised-on-valid" ELSE "")
      ELSE IF c.rebytes # c.bytes /\ NormIns(c.rebytes, 1, <<>>) # NormIns(c.bytes, 1, <<>>) THEN "bytes"
      ELSE IF c.final.len # Len(r.st.stack) + sc.pubs THEN "state"
      ELSE IF Len(r.st.stack) > 0 /\ sc.pubs = 0 /\ ~SameE(c.final.top, r.st.stack[Len(r.st.stack)]) THEN "state"
